@@ -759,10 +759,41 @@ class SInt:
         raise Unsupported("true division on a symbolic int")
 
     def bit_length(self):
-        return self.__index__().bit_length()
+        """forks on the magnitude (one path per bit length)"""
+        a = norm(self)
+        if _real_isinstance(a, _real_int):
+            return a.bit_length()
+        v = abs(a)
+        if _real_isinstance(v, _real_int):
+            return v.bit_length()
+        k = 0
+        while True:
+            if v.hi is not None and v.hi < (1 << k):
+                return k
+            if _real_bool(v < (1 << k)):
+                return k
+            k += 1
+            if k > 4200:
+                raise Unsupported("bit_length of a very large symbolic int")
 
-    def to_bytes(self, *a, **k):
-        return self.__index__().to_bytes(*a, **k)
+    def to_bytes(self, length=1, byteorder="big", *, signed=False):
+        from . import values as V
+
+        a = norm(self)
+        if _real_isinstance(a, _real_int):
+            return a.to_bytes(length, byteorder, signed=signed)
+        length = length.__index__()
+        if signed:
+            lo, hi = -(1 << (8 * length - 1)) if length else 0, (1 << (8 * length - 1)) - 1 if length else 0
+        else:
+            lo, hi = 0, (1 << (8 * length)) - 1
+        if not (_real_bool(a >= lo) and _real_bool(a <= hi)):
+            raise OverflowError("int too big to convert" if not _real_bool(a < 0) else "can't convert negative int to unsigned")
+        u = a if not signed else site(a < 0, a + (1 << (8 * length)), a)
+        items = [V.byte_item((u // (1 << (8 * (length - 1 - i)))) % 256) for i in range(length)]
+        if byteorder == "little":
+            items.reverse()
+        return V.mk_bytes(items)
 
     @property
     def value(self):
